@@ -419,7 +419,8 @@ ROOT_CONFIGS = [
 ]
 CHAIN_PREFIXES = [None, '', 'sub', 'sub/']
 ESCAPE_KEYS = ('escape-', 'handle-escape-', 'history-escape-')
-OPS = ['contains', 'getitem', 'open_bin', 'open_str', 'walk', 'handle_loose', 'handle_made', 'after_loose']
+# after_loose comes before handle_loose: both let an unconstrained system resolve the name, the history op wants to be first
+OPS = ['contains', 'getitem', 'open_bin', 'open_str', 'walk', 'after_loose', 'handle_loose', 'handle_made']
 SUB_OPS = ['contains', 'getitem', 'open_bin', 'open_str', 'walk']
 SEGS = ['..', '..', '.', '', 'in.txt', 'a', 'sub', 'deep.txt', 'root', 'root_evil', 'secret.txt', 't', 'rootx', 'root.bak',
         'sub_evil', 'x.txt', 'x', 'above.txt', 'top.txt', 'other', 'roo', 'nested.txt', 'elsewhere', 'data.txt']
@@ -527,6 +528,12 @@ def _sub_op(fs, sub: str, path: str, data: list, walk_limit: int) -> str:
     return f'{n} files'
 
 
+def _ignored_prefixes() -> tuple:
+    """Files the interpreter itself opens (lazy imports) are not accesses of the filesystem under test."""
+    from harness.common import REPO, VERIF
+    return tuple(x.rstrip('/') + '/' for x in {sys.prefix, sys.base_prefix, os.path.dirname(os.__file__), str(REPO), str(VERIF)})
+
+
 def run_op(base: str, root_spec: str, chain_prefix, op: str, path_t: str) -> dict:
     """Run one operation on a fresh filesystem object; returns outcome, data and the observed accesses.
 
@@ -543,6 +550,7 @@ def run_op(base: str, root_spec: str, chain_prefix, op: str, path_t: str) -> dic
         root = raw.path
         handle = None
         prep = None
+        cold_escape = False
         if op == 'handle_loose' and chain_prefix is not None:
             prep = 'no-handle:chain'          # a chain would open the wrapped handle through the unconstrained system
         elif op == 'handle_loose':
@@ -554,7 +562,19 @@ def run_op(base: str, root_spec: str, chain_prefix, op: str, path_t: str) -> dic
             handle = _handle_for(fs, raw, chain_prefix, File(raw, path, path))
         elif op == 'after_loose':
             # history: an UNconstrained filesystem on the same folder (same chain prefix) performs every plain operation
-            # with this name first (not observed: it is exempt); then the constrained one is asked the same
+            # with this name first (not observed: it is exempt); then a NEW constrained one is asked the same.
+            # Before that the constrained one is asked "cold": an escape that needs no history is not a history matter.
+            with observe() as ev0:
+                cold_data: list[str] = []
+                for sub in SUB_OPS:
+                    try:
+                        _sub_op(fs, sub, path, cold_data, 60)
+                    except (OSError, ValueError, UnicodeError):
+                        pass
+            cold = [os.path.normpath(os.path.join(base, p)) for _, p in ev0] + \
+                [os.path.join(base, d.strip()[len('CONTENT-OF:'):]) for d in cold_data if d.startswith('CONTENT-OF:')]
+            cold_escape = any(not is_inside(root, p) and not p.startswith(_ignored_prefixes()) for p in cold)
+            fs, raw = make_fs(base, root_spec, chain_prefix)
             loose, _ = make_fs(base, root_spec, chain_prefix, constrain=False)
             for sub in SUB_OPS:
                 try:
@@ -643,9 +663,7 @@ def run_op(base: str, root_spec: str, chain_prefix, op: str, path_t: str) -> dic
         events = [(k, os.path.normpath(os.path.join(base, p))) for k, p in ev]
     finally:
         os.chdir(old)
-    from harness.common import REPO, VERIF
-    ignore = tuple(x.rstrip('/') + '/' for x in {sys.prefix, sys.base_prefix, os.path.dirname(os.__file__),
-                                                 str(REPO), str(VERIF)})
+    ignore = _ignored_prefixes()
     escapes = [(k, p) for k, p in events if not is_inside(root, p) and not p.startswith(ignore)]
     leaked = [d.strip() for d in data if d.startswith('CONTENT-OF:')
               and not is_inside(root, os.path.join(base, d.strip()[len('CONTENT-OF:'):]))]
@@ -654,7 +672,7 @@ def run_op(base: str, root_spec: str, chain_prefix, op: str, path_t: str) -> dic
         sub = os.path.join(root, chain_prefix)
         pre_escapes = sum(1 for k, p in events if is_inside(root, p) and not is_inside(sub, p))
     return {'outcome': out, 'root': root, 'events': events, 'escapes': escapes, 'leaked': leaked, 'data': data[:3],
-            'prefix_escapes': pre_escapes, 'handle_path': None if handle is None else handle.path}
+            'prefix_escapes': pre_escapes, 'handle_path': None if handle is None else handle.path, 'cold_escape': cold_escape}
 
 
 def classify(root: str, p: str) -> str:
@@ -704,7 +722,7 @@ def search_trees(ck: Ck) -> None:
         if not r['escapes'] and not r['leaked']:
             return False
         where = r['escapes'][0][1] if r['escapes'] else os.path.join(base, r['leaked'][0][len('CONTENT-OF:'):])
-        key = ('handle-' if op.startswith('handle_') else 'history-' if op == 'after_loose' else '') + 'escape-' \
+        key = ('handle-' if op.startswith('handle_') else 'history-' if op == 'after_loose' and not r['cold_escape'] else '') + 'escape-' \
             + classify(r['root'], where)
         rep = {'root': root_spec, 'root_config': label, 'chain_prefix': cp, 'op': op, 'path': path_t,
                'file_handle_path': r['handle_path'],
